@@ -772,7 +772,15 @@ fn combine_sources(rng: &mut Rng, cfg: &mut GovCfg, mode: Mode, n: u64) {
             }
         },
         Mode::HiddenElements => match n % 6 {
-            0 | 1 => {}
+            0 => {
+                // a single source; every other one is scoped to some kinds (the others are then
+                // out of p's reach whatever their label)
+                if n % 12 == 0 && cfg.kinds.is_empty() {
+                    let mut k = strs(&KINDS);
+                    rng.shuffle(&mut k);
+                    cfg.kinds = k[..1 + rng.usize(3)].to_vec();
+                }
+            }
             2 => {
                 // e.g. a ceiling on a group grant and another one on a direct grant: p reads up to
                 // the higher of the two, and nothing above it
@@ -804,7 +812,8 @@ fn combine_sources(rng: &mut Rng, cfg: &mut GovCfg, mode: Mode, n: u64) {
                 rng.shuffle(&mut k);
                 let cut = 1 + rng.usize(3);
                 cfg.kinds = k[..cut].to_vec();
-                let ceiling = *rng.pick(&["public", "internal", "private", "sensitive"]);
+                let others: Vec<&'static str> = ["public", "internal", "private", "sensitive"].into_iter().filter(|c| *c != cfg.ceiling).collect();
+                let ceiling = *rng.pick(&others);
                 cfg.extras.push(Extra { ceiling, kinds: k[cut..].to_vec(), ..same_ceiling });
             }
         },
@@ -1769,11 +1778,11 @@ fn ni_case(case: u64, rng: &mut Rng, st: &mut Stats, thorough: bool) {
         }
     }
     // a label that only an explicit deny statement takes away: within every ceiling of p
-    let denied_within = mode == Mode::HiddenElements && case % 16 == 9;
+    let denied_within = mode == Mode::HiddenElements && case % 8 == 1;
     if denied_within {
         cfg.ceiling = *rng.pick(&["private", "sensitive"]);
         cfg.deny_label = Some("private");
-        cfg.deny_via_group = (case / 16) % 2 == 0;
+        cfg.deny_via_group = (case / 8) % 2 == 0;
     }
     let top = cfg.top_ceiling();
     let above = LADDER[LADDER.iter().position(|l| *l == top).unwrap_or(3) + 1];
@@ -2350,6 +2359,7 @@ fn derive_link(rng: &mut Rng, parent: &LinkSpec, rel: &dyn Fn(&str) -> Rel) -> L
     };
     let pl = &parent.scope.classifications;
     let classifications = match (pl.is_empty(), rel("classification_scope")) {
+        (true, Rel::Tighter) => labels_up_to(*rng.pick(&["internal", "private", "sensitive"])),
         (true, _) => vec![],
         (false, Rel::Equal) => pl.clone(),
         (false, Rel::Tighter) => pl[..pl.len().max(2) - 1].to_vec(),
@@ -2434,16 +2444,25 @@ fn derive_link(rng: &mut Rng, parent: &LinkSpec, rel: &dyn Fn(&str) -> Rel) -> L
 fn delegation_case(case: u64, rng: &mut Rng, st: &mut Stats) {
     let script = gen_script(rng, 4);
     let mut cfg = gen_cfg(rng);
-    cfg.path = if rng.bool() { "delegation" } else { "chain" };
     cfg.second_grant = false;
     cfg.deny_label = None;
     // --- the delegator's grant states the bound under test; the links are drawn against it
     // every other case has a link that must confer nothing beyond the delegator's; the others are
     // contained in every bound (restated or narrower), so that the delegate does hold something
     let slot = if case % 2 == 0 { BAD_SLOTS[((case / 2) % BAD_SLOTS.len() as u64) as usize] } else { None };
+    // (a link under test sits more often in a chain, and there more often behind the first link)
+    cfg.path = if rng.chance(if slot.is_some() { 1 } else { 2 }, 4) { "delegation" } else { "chain" };
     let n_links = if cfg.path == "delegation" { 1 } else { 2 + rng.usize(2) };
-    let bad_link = rng.usize(n_links);
+    let bad_link = if n_links > 1 && rng.chance(2, 3) { 1 + rng.usize(n_links - 1) } else { 0 };
+    // "only an earlier link has the ceiling": the grant does not state the bound under test at
+    // all, the link before the one under test narrows it, the one under test drops or widens it
+    let bound_from_link = slot.is_some_and(|s| s.0 != "actions") && bad_link >= 1 && rng.bool();
     match slot.map(|s| s.0) {
+        Some("max_classification") if bound_from_link => cfg.ceiling_as_scope = true,
+        Some("classification_scope") if bound_from_link => cfg.ceiling_as_scope = false,
+        Some("fields") if bound_from_link => cfg.fields = vec![],
+        Some("max_results") if bound_from_link => cfg.max_results = None,
+        Some("kinds") if bound_from_link => cfg.kinds = vec![],
         Some("max_classification") => cfg.ceiling_as_scope = false,
         Some("classification_scope") => cfg.ceiling_as_scope = true,
         Some("fields") if cfg.fields.is_empty() => cfg.fields = vec!["name".into(), "_system".into(), "stance".into(), "subject".into(), "object".into()],
@@ -2458,15 +2477,17 @@ fn delegation_case(case: u64, rng: &mut Rng, st: &mut Stats) {
         _ => {}
     }
     if slot.map(|s| s.0) == Some("max_influence_authority") || rng.chance(1, 3) {
-        cfg.influence = *rng.pick(&["advisory", "behavioral"]);
+        cfg.influence = if slot.map(|s| s.0) == Some("max_influence_authority") && bound_from_link { "" } else { *rng.pick(&["advisory", "behavioral"]) };
         cfg.actions.push("elevate_authority".into());
     }
     let mut parent = LinkSpec { actions: cfg.actions.clone(), scope: cfg.scope(), constraints: cfg.constraints() };
     for i in 0..n_links {
         let loose_here = slot.filter(|_| i == bad_link);
         let contained: Vec<Rel> = DIMS.iter().map(|_| if rng.chance(1, 4) { Rel::Tighter } else { Rel::Equal }).collect();
-        let link = derive_link(rng, &parent, &|dim: &str| match loose_here {
-            Some((d, r)) if d == dim => r,
+        let narrowed_here = slot.filter(|_| bound_from_link && i + 1 == bad_link);
+        let link = derive_link(rng, &parent, &|dim: &str| match (loose_here, narrowed_here) {
+            (Some((d, r)), _) if d == dim => r,
+            (_, Some((d, _))) if d == dim => Rel::Tighter,
             _ => contained[DIMS.iter().position(|x| *x == dim).unwrap_or(0)],
         });
         cfg.links.push(link.clone());
@@ -2487,13 +2508,18 @@ fn delegation_case(case: u64, rng: &mut Rng, st: &mut Stats) {
         let delegate = session(&nx, P);
         // the root delegator and, in a chain, the delegate's own delegator
         // (name, session, whether a result cap makes the SET of rows it is shown arbitrary)
-        let mut delegators: Vec<(&str, Session, bool)> = vec![("root_delegator", session(&nx, LEAD), cfg.max_results.is_some())];
-        if n_links > 1 {
-            let capped = cfg.max_results.is_some() || cfg.links[..n_links - 1].iter().any(|l| l.constraints.max_results.is_some());
-            delegators.push(("immediate_delegator", session(&nx, [MID, MID2][n_links - 2]), capped));
+        // every principal up the chain: the delegate holds no more than any of them
+        let mut delegators: Vec<(&str, Session, bool)> = vec![];
+        for (j, node) in [LEAD, MID, MID2].iter().take(n_links).enumerate() {
+            let capped = cfg.max_results.is_some() || cfg.links[..j].iter().any(|l| l.constraints.max_results.is_some());
+            let name = if j == 0 { "root_delegator" } else if j + 1 == n_links { "immediate_delegator" } else { "intermediate_delegator" };
+            delegators.push((name, session(&nx, node), capped));
         }
         st.count(&format!("delegation_links_{n_links}"));
         st.count(&format!("delegation_link_{slot_key}"));
+        if bound_from_link {
+            st.count("delegation_bound_stated_by_an_earlier_link_only");
+        }
         if slot.is_some() {
             st.count(&format!("delegation_unbounded_or_wider_link_at_{}", if bad_link == 0 { "first" } else if bad_link + 1 == n_links { "last" } else { "middle" }));
         }
@@ -2548,7 +2574,7 @@ fn delegation_case(case: u64, rng: &mut Rng, st: &mut Stats) {
                     st.eval();
                     st.count("delegation_checks");
                     st.count(&format!("delegation_checks_against_the_{who}"));
-                    let ctx = |what: &str| json!({"case": case, "phase": phase, "against": who, "what": what, "links": n_links, "link_under_test": slot_key, "at_link": bad_link, "config": format!("{cfg:?}"), "query": q.cmd,
+                    let ctx = |what: &str| json!({"case": case, "phase": phase, "against": who, "what": what, "links": n_links, "link_under_test": slot_key, "at_link": bad_link, "bound_stated_by_an_earlier_link_only": bound_from_link, "config": format!("{cfg:?}"), "query": q.cmd,
                         "params": w.params(&script, 0, &q.params), "delegator": short(&a_lead, 1000), "delegate": short(&a_del, 1000)});
                     if is_denied(&a_lead) {
                         st.count("delegation_delegator_denied");
@@ -3001,7 +3027,7 @@ fn main() {
         ("configurations_hidden_elements", f(24)),
         ("configurations_masked_fields", f(12)),
         ("hidden_as_secret", f(8)),
-        ("hidden_as_one_step_above_the_ceiling", f(8)),
+        ("hidden_as_one_step_above_the_ceiling", f(6)),
         ("hidden_as_unknown_label", f(8)),
         ("hidden_as_unlabeled_under_a_public_ceiling", f(4)),
         ("nontrivial_configurations", f(40)),
@@ -3031,7 +3057,9 @@ fn main() {
         ("config_shape_hidden_elements_two_sources_with_different_ceilings", f(4)),
         ("config_shape_hidden_elements_unbounded_source_that_expired", f(4)),
         ("config_shape_hidden_elements_unbounded_source_without_read", f(4)),
-        ("config_shape_hidden_elements_kinds_split_over_two_ceilings", f(4)),
+        ("config_shape_hidden_elements_kinds_split_over_two_ceilings", f(8)),
+        ("config_shape_hidden_elements_single_source", f(4)),
+        ("config_shape_masked_fields_single_source", f(3)),
         ("config_extra_source_via_grant", f(3)),
         ("config_extra_source_via_group", f(3)),
         ("config_extra_source_via_policy", f(3)),
@@ -3054,8 +3082,10 @@ fn main() {
         ("ni_decisive_pairs_shape_unbounded_source_that_expired", f(100)),
         ("ni_decisive_pairs_shape_unbounded_source_without_read", f(100)),
         ("ni_decisive_pairs_shape_kinds_split_over_two_ceilings", f(100)),
-        ("hidden_as_a_label_only_a_deny_statement_takes_away", f(2)),
-        ("deny_statement_reaches_p_through_a_group", t.pick(1, 10)),
+        ("hidden_as_a_label_only_a_deny_statement_takes_away", f(4)),
+        ("deny_statement_reaches_p_through_a_group", f(2)),
+        ("hidden_by_kind_scope_under_a_label_within_the_ceiling", t.pick(2, 30)),
+        ("hidden_by_the_ceiling_of_the_source_over_its_kind_within_another_sources_ceiling", f(4)),
         ("config_path_grant", 1),
         ("config_path_group", 1),
         ("config_path_delegation", 1),
@@ -3106,7 +3136,8 @@ fn main() {
         ("delegation_link_actions_looser", t.pick(2, 30)),
         ("delegation_link_max_influence_authority_empty", t.pick(2, 30)),
         ("delegation_link_max_influence_authority_looser", t.pick(2, 30)),
-        ("delegation_unbounded_or_wider_link_at_first", f(8)),
+        ("delegation_bound_stated_by_an_earlier_link_only", f(2)),
+        ("delegation_unbounded_or_wider_link_at_first", f(5)),
         ("delegation_unbounded_or_wider_link_at_last", f(2)),
         ("delegation_unbounded_or_wider_link_at_middle", t.pick(1, 10)),
         ("delegation_checks_against_the_immediate_delegator", f(5000)),
@@ -3117,7 +3148,7 @@ fn main() {
         ("delegation_influence_checks", f(100)),
         ("delegation_influence_delegator_refused", f(80)),
         ("delegation_influence_delegator_allowed", f(10)),
-        ("delegation_influence_delegate_allowed", f(3)),
+        ("delegation_influence_delegate_allowed", f(2)),
         // no self-escalation
         ("escalation_commands_writer", f(1000)),
         ("escalation_commands_reader", f(1000)),
